@@ -31,7 +31,13 @@
                                   yet consumed are DROPPED.  The model returns them as the
                                   third component of [LoopDone] so that theorems can talk
                                   about them; [autoderef] ignores them, as the Rust does.
-     [autoderef_finish]           the if / else-if chain, :2875-2973
+     [autoderef_finish]           the if / else-if chain, :2875-2973, with the first take-address
+                                  arm (:2907) as REPAIRED in /tmp/pc2 (there :2916):
+                                  `address_depth == 1 + current_type.pointer_depth()` instead
+                                  of `address_depth > 0`; [address_arm_cond] is that
+                                  condition, [autoderef_finish_gen true] =
+                                  [autoderef_finish_pinned] / [autoderef_pinned] keep the
+                                  code of the pinned source
      [autoderef]                  Reference::autoderef, :2631-3006, up to the final
                                   `typer.put_symbol(base, full_type)`
      [build_type_of_ref1]         fn build_type_of_ref1, :3027-3080 (the type handed to that
@@ -458,9 +464,17 @@ Definition opt_vt_eqb (o : option vt) (t : vt) : bool :=
 Fixpoint wrap_pointers (n : nat) (t : vt) : vt :=
   match n with O => t | S n' => VPointer (wrap_pointers n' t) end.
 
-(* :2875-2973 *)
-Definition autoderef_finish (taken : list tstep) (current_type target_type : vt)
-           (address_depth : N) : ad_result :=
+(* the condition of the first take-address arm.  Repaired source (/tmp/pc2, :2916):
+     self.address_depth as usize == 1 + current_type.pointer_depth()
+   pinned source (/tmp/pc, :2907), which accepted `&&&a` for `&a`:
+     self.address_depth > 0 *)
+Definition address_arm_cond (pinned : bool) (address_depth : N) (current_type : vt) : bool :=
+  if pinned then N.ltb 0 address_depth
+  else N.eqb address_depth (1 + pointer_depth current_type).
+
+(* :2875-2973 (/tmp/pc2: :2884-2982) *)
+Definition autoderef_finish_gen (pinned : bool) (taken : list tstep)
+           (current_type target_type : vt) (address_depth : N) : ad_result :=
   let ad0 := N.eqb address_depth 0 in
   let tpd0 := N.eqb (pointer_depth target_type) 0 in
   if ad0 && tpd0 && vt_eqb current_type target_type then              (* :2877 *)
@@ -472,7 +486,7 @@ Definition autoderef_finish (taken : list tstep) (current_type target_type : vt)
   else if N.eqb address_depth 1 && is_slice_pointer current_type
           && vt_eqb current_type target_type then                      (* :2900 *)
     ADOk taken false current_type None
-  else if N.ltb 0 address_depth
+  else if address_arm_cond pinned address_depth current_type
           && opt_vt_eqb (get_pointee_type target_type) current_type then   (* :2907 *)
     ADOk taken true (VPointer current_type) None
   else if N.ltb 0 address_depth
@@ -489,12 +503,26 @@ Definition autoderef_finish (taken : list tstep) (current_type target_type : vt)
            (wrap_pointers (N.to_nat address_depth) (fully_dereferenced current_type))
            None.
 
+Definition autoderef_finish : list tstep -> vt -> vt -> N -> ad_result :=
+  autoderef_finish_gen false.
+
+Definition autoderef_finish_pinned : list tstep -> vt -> vt -> N -> ad_result :=
+  autoderef_finish_gen true.
+
 (* :2631 *)
 Definition autoderef (member_type : N -> option vt) (known_ref_type target_type : vt)
            (steps : list astep) (address_depth : N) : ad_result :=
   match autoderef_loop member_type max_num_autoderef_steps known_ref_type steps with
   | LoopPanic s => ADPanic s
   | LoopDone taken ct _dropped => autoderef_finish taken ct target_type address_depth
+  end.
+
+(* the same with the take-address arm of the pinned source *)
+Definition autoderef_pinned (member_type : N -> option vt) (known_ref_type target_type : vt)
+           (steps : list astep) (address_depth : N) : ad_result :=
+  match autoderef_loop member_type max_num_autoderef_steps known_ref_type steps with
+  | LoopPanic s => ADPanic s
+  | LoopDone taken ct _dropped => autoderef_finish_pinned taken ct target_type address_depth
   end.
 
 (* Expression::value_type of what autoderef returns, :1582-1589 *)
